@@ -460,11 +460,13 @@ Section ElemOps.
     { erewrite bind_err; [|reflexivity]. simpl. intros _. apply frame_refl. }
     erewrite bind_ok; [|reflexivity]. cbv iota.
     destruct (lookup_attr k a) as [sp|].
-    - revert e. eapply prefix_then_atomic with (Q := fun _ => True); eauto.
+    - revert e. eapply err_frame_bind_framed with (Q := fun _ => True); eauto.
       + eapply framed_weaken; [apply lookup_default_value_framed; auto|auto].
-      + intros d0 s1 Hn1 e. destruct (is_missing d0).
-        * eapply del_tail_atomic; eauto.
-        * eapply mutate_attr_inplace_atomic; eauto.
+      + intros d0 s1 Hb1 Hn1. destruct (is_missing d0).
+        * intros e E. rewrite (del_tail_atomic l a skip c k s1 d Hk Hd Hn1 e E). apply frame_refl.
+        * eapply prefix_then_atomic with (Q := fun _ => True); eauto.
+          -- apply prepare_attr_value_framed; auto.
+          -- intros v s2 Hn2 e. eapply mutate_attr_inplace_atomic; eauto.
     - intro E. rewrite (del_tail_atomic l a skip c k s d Hk Hd Hn e E). apply frame_refl.
   Qed.
 End ElemOps.
